@@ -19,5 +19,8 @@ let run toks =
   | "union" -> let s = cs c in let o = cs c in opt (get (cs_union s o))
   | "interlist" -> let k = ci c in let l = List.init k (fun _ -> cs c) in opt (cs_inter_list l)
   | "pcmp" -> let s = cs c in let o = cs c in
-      (match cs_pcmp s o with OrdEq -> "EQ" | OrdLt -> "LT" | OrdGt -> "GT" | OrdNone -> "NONE") ^ " " ^ b (cs_eqb s o)
+      let r = cs_pcmp s o in
+      (match r with OrdEq -> "EQ" | OrdLt -> "LT" | OrdGt -> "GT" | OrdNone -> "NONE") ^ " " ^ b (cs_eqb s o) ^ " "
+      (* <, <=, >, >= are the provided methods of PartialOrd: determined by partial_cmp; != by == *)
+      ^ b (r = OrdLt) ^ b (r = OrdLt || r = OrdEq) ^ b (r = OrdGt) ^ b (r = OrdGt || r = OrdEq) ^ b (not (cs_eqb s o))
   | _ -> failwith "bad op"
